@@ -280,6 +280,13 @@ WCopyFrom ==
             LET vals == SrcVals(Len(v.offs))
                 ws == [j \in 1..Len(v.offs) |-> <<v.offs[j], vals[j]>>]
             IN DoWrite(vi, ws, [op |-> "copyfrom", src |-> kind, vals |-> vals])
+       \* a source SMALLER than the view (same rank) fills the leading corner: CopyFrom is ApplySlice at the origin
+       \/ \E kind \in SrcKinds : \E ss \in SeqProd([d \in 1..Len(v.shape) |-> 1..v.shape[d]]) :
+            /\ ss # v.shape
+            /\ LET offs == SliceOffs(v, [d \in 1..Len(ss) |-> <<0, ss[d], 1>>])
+                   vals == SrcVals(Len(offs))
+                   ws == [j \in 1..Len(offs) |-> <<offs[j], vals[j]>>]
+               IN DoWrite(vi, ws, [op |-> "copyfrom", src |-> kind, vals |-> vals, dims |-> ss])
        \/ \E ui \in DOMAIN views :
             LET u == views[ui] IN
             /\ ui # vi /\ u.shape = v.shape /\ OrderInsensitive(v, u)
